@@ -72,6 +72,31 @@ TABLE = {
 }
 
 
+# what was added to each check after the first version of the table (sensitivity rounds 2-4, see DESIGN.md section 13)
+ADDED = {
+    "C01": "Later additions: creation mode 'x', buffered file-like sources, CRC-0 contents, 2^14/2^21 sizes. Open findings in dependencies (pyppmd KF-04, multivolumefile KF-45, inflate64 KF-47, bcj KF-49) are pinned under regress/C01 and matched only when the library, run alone on the exact input, shows the defect.",
+    "C02": "Later additions: every mode 0o400..0o777, writer block sizes 1/4 KiB and one file over 1 MiB, links to links, prefix-named sibling directories under dereference, working directory inside the tree, epoch mtime.",
+    "C03": "Later additions: re-pointing slices (3/4/6-entry sequences in which a link is inside when created and re-pointed later), destination None with chdir after open, names extending the destination's name.",
+    "C04": "Later additions: extraction with a progress callback attached, a 40-folder base, bases with CRC-0 members, PackPos > 0 and attribute-less directories.",
+    "C05": "Later additions: exhaustive single- and two-operation sweeps of the header tree, nested/self-referential/cyclic encoded headers, counts in the hundreds of thousands (quadratic work), a 600 MiB 'symbolic link', a size-limited writer; the thorough tier runs an atheris/libFuzzer campaign with CRC re-sealing.",
+    "C06": "Later additions: ArchiveProperties, kStartPos, kComment, one-byte / salted / short-IV / 0x3F 7zAES properties, partial pack CRCs.",
+    "C07": "Later additions: non-normalised Unicode passwords, NUMBER boundary sizes, first session opened with 'a' on a garbage file.",
+    "C08": "Later additions: BCJ2 fixtures as opaque bases, a base with an empty member name, partial pack CRCs in reference bases.",
+    "C09": "Later additions: empty targets, folder-level / absent CRCs in solid reference archives.",
+    "C10": "Later additions: stored CRCs (also 0) must be reported, 7zAES-first chains, passwords supplied for unencrypted archives, header-level listing of every fixture (also BCJ2).",
+    "C11": "Later additions: header encryption requested by flag or setter in append sessions and followed by set_encoded_header_mode(True), non-normalised passwords, global PRNGs seeded before the uniqueness check.",
+    "C12": "Later additions: nine damaged archives (verdicts must stay right, also after a failed call), sessions of 320 calls, a 1.3 MiB password-protected archive, slow writers.",
+    "C13": "Later additions: disk output scheduled at file-system audit events, shared output directory, testzip in all modes with 30000-character names, extract(T) selections, factory output in process mode, duplicate member names.",
+    "C14": "Later additions: sessions with writeall() followed by more calls and with a failing call in the middle.",
+    "C15": "Later additions: FIFO sources, zero-length failing sources, members with CRC 0, the exception leaving the with-block.",
+    "C16": "Later additions: names re-entering the internal probe directory, payload types (bytes/str/bytearray/memoryview/streams), write() of '/', '//', '/tmp/'.",
+    "C17": "Later additions: every BMP scalar value at each position of a name, names beyond 2^16 units, folder-level CRCs in rewritten headers, a 1.6 MB packed encoded header.",
+    "C18": "Later additions: link/empty/directory members, an earlier extraction in the same session (with and without callback), mp=True, a falsy callback object.",
+    "C19": "Later additions: archive stems with dots, nested source paths, epoch mtime and mode 000, mtime comparison.",
+    "C20": "Later additions: append mode, finite RLIMIT_DATA, four folders side by side, half-compressible content, Deflate64 in the quick tier. Leaks inside pyppmd, inflate64 and bcj (KF-61, KF-62, KF-71) are matched only while a measurement of the library alone shows them.",
+}
+
+
 def main():
     from vlib.runner import CHECK_MODULES
 
@@ -96,7 +121,7 @@ def main():
                 "replay_cmd_template": "/venv/bin/python run.py %s --replay {path}" % pid,
                 "engine": "pbt-runner",
                 "level_claimed": {"category": cat, "text": text, "design_ref": "DESIGN.md section " + ref},
-                "level_note": note,
+                "level_note": note + (" " + ADDED[pid] if pid in ADDED else ""),
                 "technique": tech,
             })
         else:
